@@ -147,7 +147,7 @@ package discovery
 //@ func (*sqlStore).add
 //@   prop C16
 //@   safety
-//@   assume-benign
+//@   modifies nothing
 // a presentation without id (a JWT without jti) cannot be stored: its callers refuse it first (finding #15)
 //@   requires [only-presentations-with-an-id-are-stored] presentation.ID != nil
 // NOT provable here: "a record is returned whenever the error is nil". `return newPresentation, s.db.Transaction(..)`
@@ -158,7 +158,7 @@ package discovery
 
 //@ func cycleDetected
 //@   prop C16
-//@   assume-benign
+//@   modifies nothing
 //@ func (client.HTTPClient).*
 //@   trusted
 //@   benign
